@@ -128,7 +128,14 @@ func (wg *WaitGroup) Add(delta int) {
 	wg.real.Add(delta)
 }
 
-func (wg *WaitGroup) Done() { wg.Add(-1) }
+// Done is also a preemption point: the waiter it may have released can run before whatever the
+// caller does next (a goroutine that signals completion and then still writes its result).
+func (wg *WaitGroup) Done() {
+	wg.Add(-1)
+	if s := simrt.InSimGoroutine(); s != nil {
+		s.Yield("done")
+	}
+}
 
 func (wg *WaitGroup) Wait() {
 	if s := simrt.InSimGoroutine(); s != nil {
